@@ -478,6 +478,8 @@ func freshLocals(info *types.Info, body ast.Node) map[types.Object]bool {
 				}
 				if len(x.Values) == len(x.Names) && isFresh(x.Values[i]) {
 					cand[obj] = true
+				} else if len(x.Values) == 0 {
+					cand[obj] = true // zero value: holds no storage yet
 				} else {
 					bad[obj] = true
 				}
